@@ -232,7 +232,7 @@ class Register(GlobalVar):
         num = None
         for n in re.findall(r"\d+", reg_name):
             # For double registers, the smaller number is the number in the enums.
-            num = min(num, int(n)) if num else int(n)
+            num = min(num, int(n)) if num is not None else int(n)
         return num
 
     def __str__(self):
